@@ -52,7 +52,14 @@ def cargo_build(packages, timeout=3600):
     for p in packages:
         cmd += ["-p", p]
     t0 = time.time()
-    r = subprocess.run(cmd, cwd=HARNESS, capture_output=True, text=True, timeout=timeout)
+    env = dict(os.environ)
+    h = hashlib.sha1()
+    tdir = os.path.join(VERIF, "theories")
+    for f in sorted(os.listdir(tdir)):
+        h.update(f.encode())
+        h.update(open(os.path.join(tdir, f), "rb").read())
+    env["VERIF_CORPUS_HASH"] = h.hexdigest()
+    r = subprocess.run(cmd, cwd=HARNESS, capture_output=True, text=True, timeout=timeout, env=env)
     if r.returncode != 0:
         raise ToolError("cargo build failed:\n" + r.stderr[-4000:])
     log(f"[build] {' '.join(packages)} {time.time()-t0:.1f}s")
